@@ -51,7 +51,7 @@ def step (ss : Sess) (line : String) : Sess × String :=
     | some (_, name, inst), some data =>
       match findTab name, findWrap name with
       | some t, some w =>
-        if CodeWrapper.supported t && (t.repeatBursts.isEmpty || CodeWrapper.streamEnc t.repeatBursts == .general) then
+        if (CodeWrapper.supported t || CodeWrapper.supportedM t) && (t.repeatBursts.isEmpty || CodeWrapper.streamEnc t.repeatBursts == .general) then
           let r := decodeP t w inst data
           let ss' := { ss with insts := (iid, name, r.inst) :: ss.insts.filter (·.1 != iid) }
           let tail := s!" islast={r.isLast} stops={r.effects.length} held={match r.inst.last with | some c => showCodeV c | none => "-"}"
